@@ -1,6 +1,7 @@
 import Carquet.Util
 import Driver.Ops.Bloom
 import Driver.Ops.Crc
+import Driver.Ops.Delta
 import Driver.Ops.Lz4
 import Driver.Ops.Par
 import Driver.Ops.Plain
@@ -18,6 +19,7 @@ open Carquet.Util
 def handlers : List (Line → Option Verdict) :=
   [ Driver.Ops.Bloom.handle,
     Driver.Ops.Crc.handle,
+    Driver.Ops.Delta.handle,
     Driver.Ops.Lz4.handle,
     Driver.Ops.Par.handle,
     Driver.Ops.Plain.handle,
